@@ -128,6 +128,9 @@ def shrink(pool, driver, case, learner, budget=60):
     steps = 0
     if sum(len(c) + len(o) for c, o in case['events']) > 2000:
         budget = min(budget, 6)      # a wide case costs seconds per evaluation: only drop whole events
+    d0, impl0, _ = evaluate(pool, driver, case, learner)
+    if impl0.get('err') == 'Timeout':
+        budget = min(budget, 8)      # every candidate that still hangs costs a whole deadline
 
     def still_fails(c):
         nonlocal steps
